@@ -65,7 +65,7 @@ impl Thread {
 
         thread.thread_index = j_obj
             .get("threadIndex")
-            .and_then(|i| i.as_i64())
+            .and_then(|i| i.as_u64())
             .ok_or(StoryError::BadJson("Invalid thread index".to_owned()))?
             as usize;
 
@@ -78,7 +78,7 @@ impl Thread {
                     let push_pop_type = PushPopType::from_value(
                         j_element_obj
                             .get("type")
-                            .and_then(|t| t.as_i64())
+                            .and_then(|t| t.as_u64())
                             .ok_or(StoryError::BadJson("Invalid push/pop type".to_owned()))?
                             as usize,
                     )?;
@@ -425,17 +425,34 @@ impl CallStack {
         main_content_container: &Rc<Container>,
         j_obj: &Map<String, serde_json::Value>,
     ) -> Result<(), StoryError> {
-        self.threads.clear();
+        let j_threads = j_obj
+            .get("threads")
+            .and_then(|t| t.as_array())
+            .ok_or(StoryError::BadJson("loading threads".to_owned()))?;
 
-        let j_threads = j_obj.get("threads").unwrap();
-
-        for j_thread_tok in j_threads.as_array().unwrap().iter() {
-            let j_thread_obj = j_thread_tok.as_object().unwrap();
-            let thread = Thread::from_json(main_content_container, j_thread_obj)?;
-            self.threads.push(thread);
+        let mut threads = Vec::with_capacity(j_threads.len());
+        for j_thread_tok in j_threads.iter() {
+            let j_thread_obj = j_thread_tok
+                .as_object()
+                .ok_or(StoryError::BadJson("loading a thread".to_owned()))?;
+            threads.push(Thread::from_json(main_content_container, j_thread_obj)?);
         }
 
-        self.thread_counter = j_obj.get("threadCounter").unwrap().as_i64().unwrap() as usize;
+        // A call stack always has a current thread with a current element.
+        if threads.is_empty() || threads.iter().any(|t| t.callstack.is_empty()) {
+            return Err(StoryError::BadJson(
+                "loading threads: empty call stack".to_owned(),
+            ));
+        }
+
+        let thread_counter = j_obj
+            .get("threadCounter")
+            .and_then(|t| t.as_u64())
+            .ok_or(StoryError::BadJson("loading threadCounter".to_owned()))?
+            as usize;
+
+        self.threads = threads;
+        self.thread_counter = thread_counter;
         self.start_of_root = Pointer::start_of(main_content_container.clone()).clone();
 
         Ok(())
